@@ -743,6 +743,11 @@ set : set . clone ( ) , hll_type : HllType :: Hll8 , }
 }
 
 
+// R12b: a DOCUMENTED panic ("# Panics: if lg_max_k is not in the range [4, 21]") is modelled as 'returns only if the condition holds':
+// the condition is a tagged POSTCONDITION (`*_validated`) instead of a precondition, so weakening or removing the check is noticed.
+// Body = the original statement.
+#[verifier::external_body] fn vx_documented_panic(c: bool) ensures c { assert!(c); }
+
 impl HllUnion {
     spec fn uwf(&self) -> bool {
         4 <= self.lg_max_k <= 21 && 4 <= self.gadget.lg_config_k <= self.lg_max_k && g_ok(&self.gadget.mode, self.gadget.lg_config_k)
@@ -923,6 +928,16 @@ convert_array8_to_type ( array8 , self . gadget . lg_config_k ( ) , hll_type ) }
 Mode :: Array4 ( _ ) | Mode :: Array6 ( _ ) => {
 unreachable! ( ) }
 }
+}
+
+
+    fn new ( lg_max_k : u8 ) -> ( r : Self ) ensures
+/*@C03.new.lg_max_k_validated*/ 4 <= lg_max_k <= 21 ,
+/*@C03.new.empty*/ r . uwf ( ) && r . lg_max_k == lg_max_k && r . gadget . lg_config_k == lg_max_k && mode_empty ( & r . gadget . mode ) , {
+vx_documented_panic ( ( 4 ..= 21 ) . contains ( & lg_max_k ) ) ;
+let gadget = HllSketch :: new ( lg_max_k , HllType :: Hll8 ) ;
+Self {
+lg_max_k , gadget }
 }
 
 
